@@ -686,9 +686,25 @@ func (c *converter) fullSyncTCP() {
 	}
 }
 
+// sortedHosts returns the hosts of a map in the order of their hostnames. Some
+// host configurations, like redirect-from, are refused if another host already
+// declares the same value, so the hosts cannot be visited in the order of the map.
+func sortedHosts(hosts map[string]*hatypes.Host) []*hatypes.Host {
+	hostnames := make([]string, 0, len(hosts))
+	for hostname := range hosts {
+		hostnames = append(hostnames, hostname)
+	}
+	sort.Strings(hostnames)
+	sorted := make([]*hatypes.Host, len(hostnames))
+	for i, hostname := range hostnames {
+		sorted[i] = hosts[hostname]
+	}
+	return sorted
+}
+
 func (c *converter) fullSyncAnnotations() {
 	c.fullSyncTCP()
-	for _, host := range c.haproxy.Hosts().Items() {
+	for _, host := range sortedHosts(c.haproxy.Hosts().Items()) {
 		if ann, found := c.hostAnnotations[host]; found {
 			c.updater.UpdateHostConfig(host, ann)
 		}
@@ -702,7 +718,7 @@ func (c *converter) fullSyncAnnotations() {
 
 func (c *converter) partialSyncAnnotations() {
 	c.fullSyncTCP()
-	for _, host := range c.haproxy.Hosts().ItemsAdd() {
+	for _, host := range sortedHosts(c.haproxy.Hosts().ItemsAdd()) {
 		if ann, found := c.hostAnnotations[host]; found {
 			c.updater.UpdateHostConfig(host, ann)
 		}
